@@ -670,6 +670,24 @@ impl Module for M {
                             let mbb = moved.bounding_box();
                             ctx.expect(mm == shift_map(&m, d), "C07:text-picture-not-shifted", || format!("{} vs {} pixels", mm.len(), m.len()));
                             ctx.expect(mn == n + d, "C07:text-return-not-shifted", || format!("{:?} vs {:?} + {:?}", mn, n, d));
+                            // the same on bounded targets that cut the moved text at its right / bottom and at its left /
+                            // top side: the picture inside the target is the shifted picture, and the returned position does
+                            // not depend on the target (seeded change C07-r3-3 stopped at the target's right edge and
+                            // returned the position reached there)
+                            {
+                                let (w3, h3) = ((mbb.size.width / 3) as i32, (mbb.size.height / 3) as i32);
+                                for tl in [mbb.top_left - Point::new(w3 + 1, h3 + 1), mbb.top_left + Point::new(w3 + 1, h3 + 1)] {
+                                    let b = Rectangle::new(tl, mbb.size);
+                                    let mut r = R2::<Rgb565>::new(b);
+                                    let bn = moved.draw(&mut r).expect("recording target does not fail");
+                                    let want: PMap = shift_map(&m, d).into_iter().filter(|((y, x), _)| b.contains(Point::new(*x, *y))).collect();
+                                    if want.len() != m.len() && !want.is_empty() {
+                                        ctx.count("tr:cut-by-a-bounded-target");
+                                    }
+                                    ctx.expect(r.rec.map == want, "C07:text-picture-not-shifted-on-bounded-target", || format!("box {}: {} vs {} pixels", fmt_rect(&b), r.rec.map.len(), want.len()));
+                                    ctx.expect(bn == n + d, "C07:text-return-not-shifted-on-bounded-target", || format!("box {}: {:?} vs {:?} + {:?}", fmt_rect(&b), bn, n, d));
+                                }
+                            }
                             ctx.expect(mbb == bb.translate(d), "C07:text-box-not-shifted", || format!("{} vs {} moved", fmt_rect(&mbb), fmt_rect(&bb)));
                             format!(
                                 "next={} bb={} px={} mut={}",
